@@ -31,18 +31,20 @@ def bar_agree(ns):
 
 
 def chord_ties_agree(ns, start):
+    """ChordTiesAgree: chord symbols sharing (step, time) before `start` carry the same text"""
     d = collections.defaultdict(set)
     for a in ns.text_annotations:
         if a.annotation_type == 1 and a.quantized_step < start:
-            d[a.quantized_step].add(a.text)
+            d[(a.quantized_step, a.time)].add(a.text)
     return all(len(v) == 1 for v in d.values())
 
 
 def mel_ties_agree(ns, ss, inst, fd):
+    """MelTiesAgree: selected notes sharing (start step, pitch, start time) share the end step"""
     d = collections.defaultdict(set)
     for n in ns.notes:
         if n.instrument == inst and ss <= n.quantized_start_step and not (fd and n.is_drum) and n.velocity != 0:
-            d[(n.quantized_start_step, n.pitch)].add(n.quantized_end_step)
+            d[(n.quantized_start_step, n.pitch, n.start_time)].add(n.quantized_end_step)
     return all(len(v) == 1 for v in d.values())
 
 
@@ -154,16 +156,22 @@ def add_tie_variants(rng, ns, hist):
         a.CopyFrom(src)
         if rng.random() < 0.6:
             a.text = rng.choice(['C', 'Am', 'G7'])
-        a.time = src.time + rng.choice([0.0, 0.001])
-        hist.add('tie:chord-on-same-step')
+        dt = rng.choice([0.0, 0.001])
+        a.time = src.time + dt
+        hist.add('tie:chord-on-same-step-%s-time' % ('different' if dt else 'same'))
     if k > 0.45 and ns.notes:
         src = rng.choice(list(ns.notes))
         n = ns.notes.add()
         n.CopyFrom(src)
-        c = rng.randrange(4)
+        c = rng.randrange(5)
         if c == 0:
             n.quantized_end_step = src.quantized_end_step + rng.choice([1, 2])
             hist.add('tie:same-start-pitch-different-end')
+        elif c == 4:
+            # same (start step, pitch), different start time and end step: ordered by the third sort-key component
+            n.quantized_end_step = src.quantized_end_step + rng.choice([1, 2])
+            n.start_time = src.start_time + rng.choice([0.001, 0.01])
+            hist.add('tie:same-step-pitch-different-start-time-and-end')
         elif c == 1:
             n.velocity = rng.choice([1, 64, 127])
             hist.add('tie:same-start-pitch-different-velocity')
@@ -175,6 +183,196 @@ def add_tie_variants(rng, ns, hist):
             n.quantized_end_step = max(n.quantized_end_step, n.quantized_start_step + 1)
             hist.add('tie:same-start-time-different-step')
         ns.total_quantized_steps = max(ns.total_quantized_steps, n.quantized_end_step)
+
+
+def run_event_cases(chk, cases):
+    """cases: (op, params, quantized sequence, permuted copy, hist).  Model = implementation on both storage orders, and
+    — whenever the theorem's hypotheses hold — the implementation's two results are equal."""
+    from harness import c07
+    reqs, impls = [], []
+    for (op, p, ns, perm, hist) in cases:
+        for x in (ns, perm):
+            reqs.append(c07.req_line(op, p, nswire.encode(x)))
+            impls.append(c07.run_impl(op, p, x))
+    models = chk.driver('drv_c07', reqs)
+    for k, (op, p, ns, perm, hist) in enumerate(cases):
+        a0, a1, b0, b1 = impls[2 * k], impls[2 * k + 1], models[2 * k], models[2 * k + 1]
+        if 'err Unmodelled' in (b0, b1):
+            chk.count('model:' + op, None, False, 'skipped:model-declines')
+            continue
+        hyp = hypotheses(op, p, ns)
+        same = a0 == a1
+        chk.count('model:' + op, reqs[2 * k][:1500], b0 != 'bad-op' and nswire.encode(perm) != nswire.encode(ns),
+                  sorted(hist) + ['hyp:%s,impl-order-independent:%s' % (hyp, same),
+                                  'result:' + (a0.split()[1] if a0.startswith('err') else 'ok')])
+        for a, b, x in ((a0, b0, ns), (a1, b1, perm)):
+            if a != b:
+                chk.disagree('model:' + op, {'op': op, 'params': p, 'sequence': nswire.encode(x)}, a[:600], b[:600])
+        if hyp and not same:
+            chk.disagree('theorem:' + op, {'op': op, 'params': p, 'sequence': nswire.encode(ns),
+                                           'permuted': nswire.encode(perm)}, a0[:600], a1[:600])
+
+
+# ----------------------------------------------------------------------------- quantization coincidences (direct oracle)
+def gen_coincidence(rng):
+    """an UNQUANTIZED NoteSequence inside C12's quantifier (no two same-pitch notes overlap or coincide, no two chord
+    symbols share a time; one tempo, one time signature) on which quantization at `spq` steps per quarter creates the two
+    coincidences the extractors' secondary sort keys are for:
+    * two notes of one pitch, disjoint in time, rounded onto ONE start step with different end steps
+      ([k-0.4, k-0.1] and [k+0.35, k+d] in steps; the first is at least one step long after quantization);
+    * two chord symbols at distinct times rounded onto ONE step, with different figures, BEFORE the start step of the
+      chord extraction.
+    Returns (sequence, extraction parameters)."""
+    from note_seq.protobuf import music_pb2
+    ns = music_pb2.NoteSequence()
+    ns.ticks_per_quarter = 220
+    spq = rng.choice([1, 2, 4, 4, 8])
+    u = 60.0 / (120.0 * spq)                       # seconds per step at 120 qpm
+    bar = 4 * spq
+    x = ns.tempos.add(); x.time, x.qpm = 0.0, 120.0
+    x = ns.time_signatures.add(); x.time, x.numerator, x.denominator = 0.0, 4, 4
+    hist = set()
+    # a monophonic line of low notes on instrument 0 (rests shorter than a bar)
+    cursor, onsets = rng.choice([0, 0, 1, 3]), []
+    for _ in range(rng.choice([0, 1, 3, 6])):
+        d = rng.choice([1, 1, 2, 4])
+        n = ns.notes.add()
+        n.pitch, n.velocity, n.instrument = rng.choice([48, 50, 52, 55, 57]), rng.choice([100, 64, 30]), 0
+        n.start_time, n.end_time = cursor * u, (cursor + d) * u
+        onsets.append(cursor)
+        cursor += d + rng.choice([0, 0, 1, 2])
+    # the same-pitch pairs (pitch above the line: the melody keeps the higher note of an onset)
+    pitch_pool = [72, 74, 76, 79]
+    rng.shuffle(pitch_pool)
+    k_prev_end = 0
+    for j in range(rng.choice([1, 1, 2])):
+        k = rng.choice(onsets + [k_prev_end, k_prev_end + 1, cursor]) if rng.random() < 0.8 else rng.randrange(0, cursor + 2)
+        k = max(k, k_prev_end)                      # pairs of different pitch may share steps; keep them apart anyway
+        d = rng.choice([2, 3, 4])
+        pair = []
+        for (a, b) in ((max(k - 0.4, 0.0), k - 0.1 if k > 0 else 0.3), (k + 0.35, float(k + d))):
+            n = music_pb2.NoteSequence.Note()
+            n.pitch, n.velocity, n.instrument = pitch_pool[j], rng.choice([100, 90]), 0
+            n.start_time, n.end_time = a * u, b * u
+            pair.append(n)
+        if rng.random() < 0.5:
+            pair.reverse()                           # stored later-first half of the time
+        ns.notes.extend(pair)
+        k_prev_end = k + d + rng.choice([0, 1])
+        hist.add('pair:same-pitch-one-start-step')
+    # chord symbols: singles at distinct steps, and pairs on one step
+    steps_used = set()
+    c_tie = []
+    figs = ['C', 'Am', 'G7', 'F', 'Dm7', 'E7']
+    for j in range(rng.choice([1, 1, 2])):
+        c = rng.choice([0, 1, 2, bar - 1, bar, rng.randrange(0, 2 * bar)])
+        if c in steps_used:
+            continue
+        steps_used.add(c)
+        f = rng.sample(figs, 2)
+        pair = [(max(c - 0.3, 0.0) * u, f[0]), ((c + 0.2) * u, f[1])]
+        if rng.random() < 0.5:
+            pair.reverse()
+        for (t, fig) in pair:
+            a = ns.text_annotations.add()
+            a.time, a.text, a.annotation_type = t, fig, 1
+        c_tie.append(c)
+        hist.add('pair:chords-one-step')
+    for _ in range(rng.choice([0, 1, 2])):
+        c = rng.randrange(0, 3 * bar)
+        if c in steps_used:
+            continue
+        steps_used.add(c)
+        a = ns.text_annotations.add()
+        a.time, a.text, a.annotation_type = c * u, rng.choice(figs), 1
+    ns.total_time = max(n.end_time for n in ns.notes)
+    start = max(c_tie) + rng.choice([1, 1, 2, bar]) if rng.random() < 0.85 else rng.choice(c_tie)
+    params = {'spq': spq, 'gap_bars': rng.choice([1, 1, 2]), 'pad_end': rng.random() < 0.3,
+              'chords': [start, start + rng.choice([1, 4, bar, 2 * bar])]}
+    return ns, params, hist
+
+
+def extract_ties(ns, params):
+    """Melody (both polyphony settings) and ChordProgression extraction of the real code on `ns` quantized at
+    params['spq']: a hashable canonical result (events, start/end step, or the exception class)."""
+    from note_seq import sequences_lib as sl, melodies_lib, chords_lib
+    q = sl.quantize_note_sequence(ns, params['spq'])
+    out = []
+    for ip in (True, False):
+        m = melodies_lib.Melody()
+        try:
+            m.from_quantized_sequence(q, search_start_step=0, instrument=0, gap_bars=params['gap_bars'],
+                                      ignore_polyphonic_notes=ip, pad_end=params['pad_end'], filter_drums=True)
+            out.append(('melody', ip, tuple(int(e) for e in m), m.start_step, m.end_step))
+        except Exception as e:  # pylint: disable=broad-except
+            out.append(('melody', ip, type(e).__name__))
+    c = chords_lib.ChordProgression()
+    try:
+        c.from_quantized_sequence(q, params['chords'][0], params['chords'][1])
+        out.append(('chords', tuple(c), c.start_step, c.end_step))
+    except Exception as e:  # pylint: disable=broad-except
+        out.append(('chords', type(e).__name__))
+    return tuple(out), q
+
+
+def reversed_fields(ns):
+    """a copy with notes and text annotations in reverse storage order (flips every pair)"""
+    from note_seq.protobuf import music_pb2
+    c = music_pb2.NoteSequence()
+    c.CopyFrom(ns)
+    for f in ('notes', 'text_annotations'):
+        items = list(getattr(c, f))[::-1]
+        c.ClearField(f)
+        getattr(c, f).extend(items)
+    return c
+
+
+def run_tie_stream(chk):
+    """direct permutation oracle on the implementation (the property itself) for Melody / ChordProgression extraction
+    on quantization coincidences, plus the model tie on the same quantized inputs"""
+    rng = chk.subrng('permB-coincidences')
+    cases = []
+    for i in range(chk.n(250, 3000)):
+        ns, params, hist = gen_coincidence(rng)
+        base, q = extract_ties(ns, params)
+        mel = base[0]
+        labels = sorted(hist) + ['melody(ignore_poly):' + ('ok' if len(mel) > 3 else mel[2]),
+                                 'melody(strict):' + ('ok' if len(base[1]) > 3 else base[1][2]),
+                                 'chords:' + ('ok' if len(base[2]) > 2 else base[2][1]),
+                                 'chords-start-after-shared-step:%s' % any(
+                                     sum(1 for a in q.text_annotations if a.quantized_step == b.quantized_step) > 1
+                                     and b.quantized_step < params['chords'][0] for b in q.text_annotations)]
+        chk.count('impl:event_extraction_coincidences', ('coinc', i), len(mel) > 3 and len(base[2]) > 2, labels)
+        perms = [reversed_fields(ns), nswire.shuffled(ns, rng)]
+        for p in perms:
+            r, qp = extract_ties(p, params)
+            if r != base and len(chk.failures) < 6:
+                diff = sorted({a[0] for a, b in zip(base, r) if a != b})
+                chk.fail('event_extraction: result depends on storage order',
+                         {'operation': 'event_extraction', 'sequence': nswire.encode(ns), 'permuted': nswire.encode(p),
+                          'extraction': params, 'differs': diff})
+                break
+        # the same quantized inputs through the model (both storage orders) and the theorem hypotheses
+        qp = extract_ties(perms[0], params)[1]
+        for ip in (True, False):
+            cases.append(('melody', [0, 0, params['gap_bars'], ip, params['pad_end'], True], q, qp, {'coincidence-stream'}))
+        cases.append(('chords', list(params['chords']), q, qp, {'coincidence-stream'}))
+        if i < 2:
+            chk.sample({'coincidence_sequence': nswire.encode(ns)[:300] + ' …', 'extraction': params, 'result': repr(base)[:300]})
+    run_event_cases(chk, cases)
+
+
+def replay(chk, obj):
+    """replay of a `run_tie_stream` failure: {'operation': 'event_extraction', 'sequence', 'permuted', 'extraction'}
+    (harness/c12.py's replay only re-runs its own `operations()`, which extract chords from step 0)"""
+    ns, p, params = nswire.decode(obj['sequence']), nswire.decode(obj['permuted']), obj['extraction']
+    a, b = extract_ties(ns, params)[0], extract_ties(p, params)[0]
+    print('replay C12 event_extraction (quantization coincidences):', params)
+    for x, y in zip(a, b):
+        print('  %-7s stored order: %s\n  %-7s permuted:     %s%s' % (x[0], x[1:], '', y[1:], '   <-- differs' if x != y else ''))
+    bad = a != b
+    print('PROPERTY FAILS: extraction result depends on storage order' if bad else 'property holds on this input')
+    return 1 if bad else 0
 
 
 def run_streams(chk):
@@ -200,28 +398,8 @@ def run_streams(chk):
                 continue
             p = c07.gen_params(rng, op, ns, False)
             cases.append((op, p, ns, perm, hist))
-    reqs, impls = [], []
-    for (op, p, ns, perm, hist) in cases:
-        for x in (ns, perm):
-            reqs.append(c07.req_line(op, p, nswire.encode(x)))
-            impls.append(c07.run_impl(op, p, x))
-    models = chk.driver('drv_c07', reqs)
-    for k, (op, p, ns, perm, hist) in enumerate(cases):
-        a0, a1, b0, b1 = impls[2 * k], impls[2 * k + 1], models[2 * k], models[2 * k + 1]
-        if 'err Unmodelled' in (b0, b1):
-            chk.count('model:' + op, None, False, 'skipped:model-declines')
-            continue
-        hyp = hypotheses(op, p, ns)
-        same = a0 == a1
-        chk.count('model:' + op, reqs[2 * k][:1500], b0 != 'bad-op' and nswire.encode(perm) != nswire.encode(ns),
-                  sorted(hist) + ['hyp:%s,impl-order-independent:%s' % (hyp, same),
-                                  'result:' + (a0.split()[1] if a0.startswith('err') else 'ok')])
-        for a, b, x in ((a0, b0, ns), (a1, b1, perm)):
-            if a != b:
-                chk.disagree('model:' + op, {'op': op, 'params': p, 'sequence': nswire.encode(x)}, a[:600], b[:600])
-        if hyp and not same:
-            chk.disagree('theorem:' + op, {'op': op, 'params': p, 'sequence': nswire.encode(ns),
-                                           'permuted': nswire.encode(perm)}, a0[:600], a1[:600])
+    run_event_cases(chk, cases)
+    run_tie_stream(chk)
 
     # ---- sustain: C14's model on a sequence and on a permutation of it
     rng = chk.subrng('permB-sustain')
